@@ -221,3 +221,15 @@ Example C09_json_missing_objects :
   to_input (Some (mkNI None "00" 0 1)) = JErr /\ to_input None = JErr /\
   to_output (Some (mkNO (of_sat 1) 0 None)) = JErr /\ to_output None = JErr.
 Proof. repeat split; reflexivity. Qed.
+
+(** State inventory (tie, translator part): every Go struct the model of this property represents has, in the
+    source as it is NOW (gen/Structs.v, regenerated on every run), exactly the fields - names, types, order - the
+    model was written against (model/StateInventory.v).  New state in these objects (a memoised digest, a cached
+    document, a remembered operand) is state the theorems above do not speak about: this is the obligation that
+    stops checking then. *)
+From GoBT Require gen.Structs model.StateInventory.
+Theorem C09_state_inventory :
+  forall k, In k (StateInventory.group_of "C09") ->
+  exists f, StateInventory.lookup_gen gen.Structs.structs k = Some f /\ StateInventory.lookup_model k = Some f.
+Proof. apply StateInventory.inventory_ok_spec. vm_compute. reflexivity. Qed.
+Print Assumptions C09_state_inventory.
